@@ -243,12 +243,12 @@ type Layout struct {
 	Roots   []Hash   // highest tree first; zero for a tree without survivors
 	RootPos []uint64 // same order
 	RootRow []uint8
-	At      map[uint64]Hash   // position -> hash of the node sitting there (zero roots included)
-	LeafPos map[int]uint64    // live added-leaf index -> position
-	Parent  map[uint64]uint64 // occupied non-root position -> parent position
-	IsLeaf  map[uint64]int    // position -> added-leaf index
-	Opaque  map[uint64]int    // position -> opaque tree index (node is an opaque subtree)
-	TreeOf  map[uint64]int    // occupied position -> tree index (0 = highest)
+	At      map[uint64]Hash      // position -> hash of the node sitting there (zero roots included)
+	LeafPos map[int]uint64       // live added-leaf index -> position
+	Parent  map[uint64]uint64    // occupied non-root position -> parent position
+	IsLeaf  map[uint64]int       // position -> added-leaf index
+	Opaque  map[uint64]int       // position -> opaque tree index (node is an opaque subtree)
+	TreeOf  map[uint64]int       // occupied position -> tree index (0 = highest)
 	Range   map[uint64][2]uint64 // occupied position -> (a,h) slot range of the contracted node
 	Row     map[uint64]uint8
 }
